@@ -231,7 +231,7 @@ def probe_body(ex, run_body, env, it, havoc_ok=(), body=None):
                 if kind == 'setattr':
                     if obj.prov == 'fresh' or _reachable_from(elem, obj) or getattr(obj, 'indexed_from', None) is not None:
                         # (an element picked by a symbolic subscript: its attributes are unknown to later reads anyway)
-                        bp.elem_writes.append((obj, attr, new))
+                        bp.elem_writes.append((obj, attr, new, old))
                         continue
                     raise Unsupported(f'loop body writes outer object {obj}.{attr}')
                 if kind == 'mutate':
@@ -242,7 +242,7 @@ def probe_body(ex, run_body, env, it, havoc_ok=(), body=None):
                         bp.dict_sets.setdefault(id(obj), (obj, []))[1].append(new)
                         continue
                     if _reachable_from(elem, obj):
-                        bp.elem_writes.append((obj, attr, None))
+                        bp.elem_writes.append((obj, attr, None, None))
                         continue
                     raise Unsupported(f'loop body mutates outer container ({attr})')
             # loop-carried names
@@ -349,7 +349,9 @@ def apply_summary(ex, it, paths, conts, env, node):
             ex.log.append(ForEach(seq, [(q.choices, q.events) for q in normal] + [(p.choices + ['<raises>'], p.events)]))
             raise p.raised
     if any(p.events for p in normal):
-        ex.log.append(ForEach(seq, [(p.choices, p.events) for p in normal]))
+        fe_ = ForEach(seq, [(p.choices, p.events) for p in normal])
+        fe_.elem_writes = [list(p.elem_writes) for p in normal]     # per path: (object reachable from the element, attribute, new value)
+        ex.log.append(fe_)
     # accumulators
     acc_ids = set()
     for p in normal:
